@@ -1,5 +1,8 @@
 import MevCommit.Model.Preconf
+import MevCommit.Model.ProviderNode
 import MevCommit.Spec.C01
+import MevCommit.Props.C02
+import MevCommit.Props.C11
 open MevCommit MevCommit.Preconf MevCommit.Spec.C01
 
 theorem C01_deadline_constant : Extracted.handleBidDeadlineNs = 5 * 1000000000 := by decide
@@ -202,3 +205,53 @@ example : handleBid ⟨true, true, true, true, true, [.handoff, .decision false 
     true, true, true⟩ = ⟨[.sign, .store, .write], .ok⟩ ∧
   handleBid ⟨true, true, true, true, true, [.handoff, .deadline, .decision true 1], true, true, true⟩ =
     ⟨[], .err "context"⟩ := by decide
+
+
+/-! ### The gates, opened: what each of them means in the component models -/
+section Composed
+open MevCommit.ProviderNode
+
+/-- **C01 at full strength**: if the provider path (handler composed with the models of
+`VerifyBid`, the allowance check and the format rules) produces any effect — a commitment
+signature, a settlement submission or a commitment message — then the sending peer proved the
+bidder role, the bid was read, its digest is the digest of exactly its fields and its signature
+is a 65-byte low-S signature over that digest recovering to some key, both registry reads were
+obtained and decoded with allowance ≥ minimum, the bid satisfies the published format rules, and
+the engine accepted this digest before the deadline.  For every hash function and signature
+scheme. -/
+theorem C01_composed (H : Bytes → Bytes) (S : Signer.Scheme) (a : Arrival)
+    (h : (provider H S a).effects ≠ []) :
+    a.role = 2 ∧ a.readOk = true ∧
+    (∃ d s pub, a.bid.digest = some d ∧ a.bid.signature = some s ∧ Signer.getBidHash H a.bid = .ok d ∧
+      s.length = 65 ∧ S.recover d (Signer.normaliseV s) = some pub ∧
+      S.verifyLowS pub d ((Signer.normaliseV s).take 64) = true) ∧
+    (∃ mn amt, Registry.read a.minAns = some mn ∧ Registry.read a.amtAns = some amt ∧ mn ≤ amt) ∧
+    ProviderSvc.validFormat a.bid.txHash a.bid.amount a.bid.blockNumber a.bid.decayStart a.bid.decayEnd
+      (a.bid.digest.getD []) = true ∧
+    acceptedInTime a.schedule = true := by
+  obtain ⟨h1, h2, h3, h4, h5, h6⟩ := C01_effects_imply_gates (envOf H S a) h
+  refine ⟨?_, h2, ?_, ?_, h5, h6⟩
+  · simpa [envOf] using h1
+  · have hv : (Signer.verifyBid H S a.bid).isOk = true := h3
+    cases hr : Signer.verifyBid H S a.bid with
+    | ok addr =>
+      obtain ⟨d, s, hd, hs, hh, hl, pub, hrec, hver, _⟩ := (C02_verifyBid_ok_iff H S a.bid addr).mp hr
+      exact ⟨d, s, pub, hd, hs, hh, hl, hrec, hver⟩
+    | err k => rw [hr] at hv; simp [Outcome.isOk] at hv
+    | panic p => rw [hr] at hv; simp [Outcome.isOk] at hv
+  · exact (C11_check_iff a.minAns a.amtAns).mp h4
+
+/-- the converse for the handler's decision: a bidder's bid that was read, verifies, is funded
+and well-formed, whose wait ends with the engine's ACCEPTED status, yields exactly sign, store,
+write and success when the three outputs succeed -/
+theorem C01_composed_accepts (H : Bytes → Bytes) (S : Signer.Scheme) (a : Arrival)
+    (g1 : a.role = 2) (g2 : a.readOk = true) (g3 : (Signer.verifyBid H S a.bid).isOk = true)
+    (g4 : (Registry.check a.minAns a.amtAns).answer = true)
+    (g5 : ProviderSvc.validFormat a.bid.txHash a.bid.amount a.bid.blockNumber a.bid.decayStart a.bid.decayEnd
+      (a.bid.digest.getD []) = true)
+    (hwait : wait a.schedule = .status statusAccepted)
+    (hs : a.signOk = true) (ht : a.storeOk = true) (hw : a.writeOk = true) :
+    (provider H S a).effects = [.sign, .store, .write] ∧ (provider H S a).result = .ok := by
+  simp [provider, handleBid, envOf, g1, g2, g3, g4, g5, hwait, hs, ht, hw, statusAccepted, statusRejected]
+
+end Composed
